@@ -29,7 +29,7 @@ PROPERTIES = {
         assumptions=["bytes on the wire for multipart are httpx's", "interleavings inside httpx are outside this family"],
     ),
     "C06": dict(
-        modules=["contracts.c06_input_types", "contracts.c06_defaults", "contracts.c18_names", "contracts.c09_pruning", "contracts.c04_modules", "contracts.c11_clients"],
+        modules=["contracts.c06_input_types", "contracts.c06_defaults", "contracts.c18_names", "contracts.c09_pruning", "contracts.c04_modules", "contracts.c11_clients", "contracts.c09_closure"],
         bounded=[_bounded.lazy("contracts.e2e_scalars", "bounded_scalar_positions"), _bounded.lazy("contracts.c09_pruning", "bounded_pruning"), _bounded.lazy("contracts.e2e_variables", "bounded_variables"),
                  _bounded.lazy("contracts.c11_multipart", "bounded_agreement"), _bounded.lazy("contracts.e2e_fuzz_inputs", "bounded_generated_inputs")],
         explanation="input type translator and default-literal translator against the image/coercion spec functions, by structural induction",
@@ -74,7 +74,7 @@ PROPERTIES = {
         assumptions=["schema validity is graphql-core's (assert_valid_schema); file system predicates are the OS's"],
     ),
     "C09": dict(
-        modules=["contracts.c04_package", "contracts.c09_pruning"],
+        modules=["contracts.c04_package", "contracts.c09_pruning", "contracts.c09_closure"],
         bounded=[_bounded.lazy("contracts.c09_pruning", "bounded_pruning"), _bounded.lazy("contracts.e2e_pruning", "bounded_pruned_packages")],
         explanation="accumulation of used enums / inputs in the package orchestration and in InputTypesGenerator; closure (dfs) by bounded stand-in",
         assumptions=["textual identity of retained definitions also depends on autoflake/isort/black (assumed)"],
